@@ -666,4 +666,43 @@ def supportedTcbLevels (f5 : Bool) (fx : Fixes) (doc : TcbInfoDoc) (qe : QeIdDoc
   | .err e, .ok b => if f5 then .err e else .ok (default, b)
   | .err e, .err _ => if f5 then .err e else .ok (default, default)
 
+
+/-- what `tdxQuoteV4` leaves in the hidden fields of the options (`none`: it returned before storing anything) -/
+def stateAfter (fx : Fixes) (w : World) (q : Option QuoteV4) (o : Opts) : Option (Option Collateral × PckExt.PckExtensions) :=
+  if !fx.f2 && (q.bind (·.header)).isNone then none else
+  match checkQuoteV4 q, q with
+  | .ok _, some _ =>
+    match extractChain w.chainPem with
+    | .ok ch =>
+      match PckExt.pckCertificateExtensions (cert w ch.leaf).pck with
+      | .ok ext =>
+        if o.getCollateral then
+          match extractCa (cert w ch.leaf) with
+          | .ok ca =>
+            match (obtainCollateral fx w ext.fmspc ca o.checkRevocations).2 with
+            | .ok c => some (some c, ext)
+            | _ => none
+          | _ => none
+        else some (none, ext)
+      | _ => none
+    | _ => none
+  | _, _ => none
+
+/-- `verify.SupportedTcbLevelsFromCollateral(quote, options)` called right after `verify.TdxQuote(quote, options)`
+    on the same options value -/
+def supportedLevelsCall (f5 : Bool) (fx : Fixes) (w : World) (q : Option QuoteV4) (o : Opts) : Outcome (TcbLevelF × TcbLevelF) :=
+  match stateAfter fx w q o with
+  | none => .err "collateral nil"
+  | some (col, ext) =>
+    let T := o.now.getD (defaultTimeSet w.clock)
+    match runChecks (collateralChecks w o T col) with
+    | .err e => .err e
+    | .panic => .panic
+    | .ok _ =>
+      match col, q with
+      | some c, some q =>
+        supportedTcbLevels f5 fx c.tcb c.qe (q.tdQuoteBody.getD default).teeTcbSvn ext.tcb.pcesvn ext.tcb.comps
+          (((qeCertData q).getD default).qeReport.getD default).isvSvn
+      | _, _ => .err "collateral nil"
+
 end Tdx.Verify
